@@ -141,8 +141,12 @@ Record entry := {
   e_vrot : bool;    (* the value-log file of the bucket rotates before this entry's record *)
   e_ver : N }.
 
+(** one request of a commit batch that holds several (concurrent clients, WriteBatchWait) *)
+Record req := { q_es : list entry; q_border : list N; q_hord : list N }.
+
 Inductive step :=
 | SB (es : list entry) (border hord : list N)   (* one request: a transaction or a plain Set/Del *)
+| SCB (rs : list req)                           (* one commit batch of several requests *)
 | SRot                                          (* forced memtable rotation *)
 | SFl                                           (* flush of the oldest sealed memtable *)
 | SMv (fids : list N) (lvl : N)                 (* L0 -> ingest buffer move *)
@@ -190,6 +194,12 @@ Definition client_request_mops (sync : bool) (es : list entry) (border hord : li
 Definition compile_step (sync : bool) (s : step) : list mop :=
   match s with
   | SB es border hord => client_request_mops sync es border hord
+  | SCB rs =>
+      (* commitWorker: valueLog.write of all requests, then per request updateHead + writeToLSM,
+         then one wal.Sync, then every request is acknowledged *)
+      flat_map (fun q => vlog_phase (q_es q) (q_border q)) rs ++
+      flat_map (fun q => map MHead (head_order (q_border q) (q_hord q)) ++ apply_phase (q_es q)) rs ++
+      map (fun _ => if sync then MSyncAck else MAck) rs
   | SRot => [MFlushBuf; MNewSeg]
   | SFl => [MSstCreate; MSstFill; MFlushMan; MFlushWalRm]
   | SMv fids lvl => [MMove fids lvl]
